@@ -464,6 +464,10 @@ def run(chk) -> None:
 
     fs = chk.repo.func(AN, "find_stackings")
     chk.note_function(fs)
+    if not any(isinstance(l, ast.For) and isinstance(l.iter, ast.Call) and astq.callee_name(l.iter) == "query_pairs" for l in fs.node.body):
+        from checks import c03e as _c03e
+
+        fs = _c03e.loopified(fs)
     try:
         from checks import c03e, c04, c04e
 
